@@ -728,10 +728,24 @@ class Interp:
         lo, hi = ty_range(w, sg)
         return st.prove_ge0(lin - lo) and st.prove_ge0(Lin.const(hi) - lin)
 
+    def exact_wrap(self, st, lin, w, sg):
+        """lin - k * 2^w when the whole interval of lin lies in one period of the type (w,sg) (the reduction is then exact), else None"""
+        lo, hi = st.interval(lin)
+        if lo is None or hi is None:
+            return None
+        tlo, _thi = ty_range(w, sg)
+        k = (lo - tlo) >> w
+        if k != (hi - tlo) >> w:
+            return None
+        return lin - Lin.const(k << w)
+
     def wrap(self, st, lin, w, sg, what):
         """value of lin reduced into type (w,sg): lin itself if provably in range, else a fresh symbol"""
         if self.fits(st, lin, w, sg):
             return VInt(lin, w, sg)
+        r = self.exact_wrap(st, lin, w, sg)
+        if r is not None:
+            return VInt(r, w, sg)
         return self.fresh_int(st, w, sg, "wrap:" + what, ("wrap", what, lin))
 
     def eval_binop(self, frame, op, lv, rv, st, dest_ty):
@@ -843,6 +857,8 @@ class Interp:
                     xl, xh = st.interval(x)
                     if xl is not None and xl >= 0 and xh is not None and xh <= cx and (cx & (cx + 1)) == 0:
                         return VInt(x, w, sg)
+                    if xl is not None and xl >= 0 and xh is not None and (cx & (cx + 1)) == 0 and xl // (cx + 1) == xh // (cx + 1):
+                        return VInt(x - Lin.const((xl // (cx + 1)) * (cx + 1)), w, sg)
                     return self.fresh_int(st, w, sg, "and", ("and", x, cx), 0, cx)
             if al is not None and al >= 0:
                 return self.fresh_int(st, w, sg, "and", ("and", a, b), 0, ah)
@@ -852,7 +868,14 @@ class Interp:
             r = a.scale(1 << cb)
             if self.fits(st, r, w, sg):
                 return VInt(r, w, sg)
+            r2 = self.exact_wrap(st, r, w, sg)
+            if r2 is not None:
+                return VInt(r2, w, sg)
             return self.fresh_int(st, w, sg, "shl", ("shl_trunc", a, cb))
+        if op == "Shl" and ca is not None and ca > 0:
+            bl, bh = st.interval(b)
+            if bl is not None and bh is not None and 0 <= bl and bh < w and (ca << bh) <= thi:
+                return self.fresh_int(st, w, sg, "shl", ("shl", a, b), ca << bl, ca << bh)
         if op in ("BitOr", "BitXor") and al is not None and al >= 0 and ah is not None:
             bl, bh = st.interval(b)
             # disjoint bit ranges: x (a multiple of 2^k) | y (below 2^k) = x + y
@@ -861,12 +884,18 @@ class Interp:
                     g = x.c
                     for _s, c_ in x.t:
                         g = math.gcd(g, c_)
-                    if g and x.t:
+                    if g:
                         p2 = g & -g
                         if yh < p2:
                             r = x + y
                             if self.fits(st, r, w, sg):
                                 return VInt(r, w, sg)
+                if op == "BitOr" and not sg:
+                    # x | (all bits from k upwards) = mask + (x & (2^k - 1))
+                    for x, cx in ((a, cb), (b, ca)):
+                        if cx is not None and cx > 0 and ((1 << w) - cx) & ((1 << w) - cx - 1) == 0 and not x.is_const():
+                            low = self.eval_bitop("BitAnd", x, Lin.const((1 << w) - cx - 1), w, sg, st)
+                            return VInt(low.lin + cx, w, sg)
             if bl is not None and bl >= 0 and bh is not None:
                 m = max(ah, bh)
                 top = (1 << m.bit_length()) - 1
@@ -905,6 +934,9 @@ class Interp:
             raise Unsupported("int cast of %r" % (v,))
         if self.fits(st, v.lin, w, sg):
             return VInt(v.lin, w, sg)
+        r = self.exact_wrap(st, v.lin, w, sg)
+        if r is not None:
+            return VInt(r, w, sg)
         return self.fresh_int(st, w, sg, "trunc", ("trunc", v.lin, v.w, v.sg))
 
     def eval_rvalue(self, frame, rv, st, dest_ty):
@@ -1507,9 +1539,9 @@ class Interp:
         mrefs = [a for a in args if isinstance(a, VRef) and a.mut]
         refined = {}
         for s2, val in outs:
-            if isinstance(val, VAgg) and val.kind == "tuple":
+            if (isinstance(val, VAgg) and val.kind == "tuple") or isinstance(val, VInt):
                 refined[id(s2)] = self.int_sig(s2, val)
-        use_refined = 1 < len(set(refined.values())) <= 8
+        use_refined = 1 < len(set(refined.values())) <= 12
         for s2, val in outs:
             k = self.outcome_key(s2, val, 3)
             if use_refined:
